@@ -4,6 +4,7 @@ import QV.Proofs.Bennett
 import QV.Props.C02
 import QV.Proofs.CompilerClean
 import QV.Model.CompilerClass
+import QV.Proofs.CompilerGen11
 /-!
 # C03 – Compiled circuits are clean: inputs preserved, scratch qubits back to zero
 
@@ -21,7 +22,8 @@ The model follows the compiler with the repairs `docs/fixes/CC-*.diff`.  The sem
 `C03_fragment_partial` is proved for that model (`QV/Proofs/CompilerClean.lean`) on the whole class of
 `C02_fragment_partial`: since the repaired `compile_or` applies no `X` gate to an argument qubit the class
 no longer restricts the arity of `Or`, and since the ancillas of a definition that is not a return bit are
-kept until `uncompute_all` it no longer asks for a requested return name.
+kept until `uncompute_all` it no longer asks for a requested return name.  `C03_general_partial` (end of the file)
+proves cleanliness on the general class: definition lists with the intermediates first and the return bits last.
 -/
 namespace QV.C03
 open QV QV.Compiler
@@ -274,5 +276,82 @@ theorem C03_fragment_norets_witness :
     validateClean [{ cls := .MCX 2, wires := [0, 1, 3] }, { cls := .MCX 2, wires := [2, 3, 4] },
       { cls := .MCX 2, wires := [0, 1, 3] }, { cls := .MCX 2, wires := [2, 3, 4] }] 5 3 [] = false := by
   decide +kernel
+
+/-! ## Cleanliness on the general class (`QV/Proofs/CompilerGen9…11.lean`)
+
+On top of the state invariant of `C02_general_partial`: the statement loop runs in two phases.  While the
+intermediates are compiled (left-hand sides that are not requested return bits) no ancilla is released – each
+statement ends with `keep_ancillas` –, every control of every gate keeps the value it had at gate time, every
+target stays in use.  While the return bits are compiled each statement releases its ancillas inline
+(`bennettF`); its gates target qubits allocated in this phase, and at every statement boundary each such
+target is free again or the qubit of a requested return bit.  Hence `uncompute_all(keep)` – which replays, in
+reverse, the gates of the circuit after `remove_identities` whose target is neither kept nor free
+(`uncomputeAll_exact`, `removeIdentities_filter_rev`) – replays exactly the gates of the intermediates that do
+not target a return qubit, and `bennettF` shows that it gives back zeros. -/
+
+/-- **C03 on the general class** (`inGeneralCleanClass` = `inGeneralClean` ∨ `inCleanFragment`): the class of
+`C02_general_partial` – arguments, several return bits, `Not` / `And` / `Or` / `Xor` of any arity with ANY sharing of
+sub-expressions inside and across definitions (cache hits, also of a return statement on the kept ancillas of an
+intermediate), re-binding of intermediates and arguments, constants, re-use of released ancillas, every admissible
+sequence of ancilla choices – restricted to definition lists in which the intermediates come first and the requested
+return bits last (`keptThenRet`), each return bit a NEW name defined once whose right-hand side is without constants
+or a bare constant (`retDefs`; sympy leaves no other form).  With final
+uncomputation on, every successful run of the compiler model is `Clean`: on every input every argument qubit is
+unchanged and every qubit that is neither an argument nor the qubit of a requested return bit is back to zero.
+
+Not covered (`docs/notes/C02_C03_C06.md`): a requested return name defined twice or re-binding an argument – the
+compiler is WRONG there (finding: the first result qubit is uncomputed by `uncompute_all` after its ancillas were
+released); an intermediate defined after a return bit (it may re-use ancillas the return statement released: the
+replayed part of the return statement is then a palindrome `W ++ W.reverse`, not proved; no instance of the check's
+corpus has this shape); a constant inside a return bit's compound expression (model only). -/
+theorem C03_general_partial (inputs : List String) (defs : List (String × BExp)) (rets : List String)
+    (choices : List Nat) (s : CState)
+    (hf : inGeneralCleanClass inputs defs rets = true)
+    (h : (compile inputs defs (some rets) true).run { choices := choices } = .ok ((), s)) :
+    Clean s.qc.gates.toList s.qc.numQubits inputs.length (rets.filterMap (dictGet? s.qc.qmap)) := by
+  simp only [inGeneralCleanClass, Bool.or_eq_true] at hf
+  rcases hf with hf | hf
+  · simp only [inGeneralClean, inGeneral, Bool.and_eq_true, decide_eq_true_eq, List.all_eq_true,
+      Bool.not_eq_true'] at hf
+    obtain ⟨⟨⟨⟨hnd, hfr⟩, hgen⟩, _⟩, hkr⟩ := hf
+    intro x hx q _
+    exact compile_general_clean h hnd hfr hgen hkr x hx q
+  · exact C03_fragment_partial inputs defs rets choices s hf h
+
+/-- an instance of the class that is in no older class: two intermediates (`m` is read three times, `And(a, b)`
+is computed for `m` and found in the cache by both return statements), two return bits; the second return
+statement re-uses the ancillas the first released -/
+example : inGeneralClean ["a", "b", "c"]
+    [("m", .or [.and [.sym "a", .sym "b"], .sym "c"]),
+     ("t", .xor [.sym "m", .not (.sym "a")]),
+     ("_ret.0", .xor [.and [.sym "a", .sym "b"], .sym "m", .not (.sym "t")]),
+     ("_ret.1", .or [.and [.sym "a", .sym "b"], .and [.sym "t", .sym "m", .sym "c"]])] ["_ret.0", "_ret.1"] = true ∧
+  inCleanFragment ["a", "b", "c"]
+    [("m", .or [.and [.sym "a", .sym "b"], .sym "c"]),
+     ("t", .xor [.sym "m", .not (.sym "a")]),
+     ("_ret.0", .xor [.and [.sym "a", .sym "b"], .sym "m", .not (.sym "t")]),
+     ("_ret.1", .or [.and [.sym "a", .sym "b"], .and [.sym "t", .sym "m", .sym "c"]])] ["_ret.0", "_ret.1"] = false := by
+  decide +kernel
+
+/-- not in the class: the return name is defined twice (the real compiler leaves qubit 4 dirty on input `011`) -/
+example : inGeneralClean ["a", "b", "c"]
+    [("r", .and [.sym "c", .or [.sym "a", .sym "b"]]), ("r", .sym "a")] ["r"] = false := by decide +kernel
+
+/-- non-vacuity on a program outside the older classes (kernel-evaluated; programs with `And` / `Or` are exercised
+through the driver, `List.mergeSort` does not evaluate in the kernel): an intermediate, then the return bit -/
+example : inGeneralClean ["a", "b", "c"]
+      [("m", .xor [.sym "a", .sym "b"]), ("_ret", .xor [.sym "m", .not (.sym "c")])] ["_ret"] = true ∧
+    ∃ s, (compile ["a", "b", "c"]
+      [("m", .xor [.sym "a", .sym "b"]), ("_ret", .xor [.sym "m", .not (.sym "c")])]
+      (some ["_ret"]) true).run { choices := [3, 4] } = .ok ((), s) := by
+  refine ⟨by decide +kernel, ?_⟩
+  have h : ((compile ["a", "b", "c"]
+      [("m", .xor [.sym "a", .sym "b"]), ("_ret", .xor [.sym "m", .not (.sym "c")])]
+      (some ["_ret"]) true).run { choices := [3, 4] }).toBool = true := by decide +kernel
+  cases hrun : (compile ["a", "b", "c"]
+      [("m", .xor [.sym "a", .sym "b"]), ("_ret", .xor [.sym "m", .not (.sym "c")])]
+      (some ["_ret"]) true).run { choices := [3, 4] } with
+  | ok p => exact ⟨p.2, rfl⟩
+  | error e => rw [hrun] at h; cases h
 
 end QV.C03
